@@ -27,7 +27,7 @@ type c13Cfg struct {
 	Files map[string]string `json:"files,omitempty"`
 }
 
-var c13Strings = []string{"abc", "a.c", "evil", "x1"}
+var c13Strings = []string{"abc", "a.c", "evil", "x1", "Xb.d"}
 
 type c13Role struct {
 	name     string
@@ -66,6 +66,13 @@ var c13Roles = []c13Role{
 	}},
 	{"rxpf", 2, func(s string, v int) (string, map[string]string) {
 		return fmt.Sprintf("SecRxPreFilter %s\nSecRule ARGS \"@rx %s\" \"id:9,phase:1,deny,status:409\"\n", []string{"On", "Off"}[v], s), nil
+	}},
+	{"hdrrx", 1, func(s string, v int) (string, map[string]string) {
+		// regex key on a case-insensitive collection: the expression is lower-cased there, not for ARGS
+		return fmt.Sprintf("SecRule REQUEST_HEADERS:/%s/ \"@rx .\" \"id:12,phase:1,deny,status:412\"\n", s), nil
+	}},
+	{"neghdrrx", 1, func(s string, v int) (string, map[string]string) {
+		return fmt.Sprintf("SecRule REQUEST_HEADERS|!REQUEST_HEADERS:/%s/|!REQUEST_HEADERS:host \"@rx .\" \"id:13,phase:1,deny,status:413\"\n", s), nil
 	}},
 	{"negrx", 1, func(s string, v int) (string, map[string]string) {
 		return fmt.Sprintf("SecRule ARGS|!ARGS:/%s/ \"@rx .\" \"id:10,phase:1,deny,status:410\"\n", s), nil
@@ -127,9 +134,15 @@ func c13Requests() []*TxScript {
 	mk := func(id, uri string) *TxScript {
 		return &TxScript{ID: id, Method: "GET", URI: uri, Headers: []Header{{"Host", "h"}}, RespStatus: 200, StopAfter: -1}
 	}
+	mkh := func(id, uri, hk, hv string) *TxScript {
+		s := mk(id, uri)
+		s.Headers = append(s.Headers, Header{hk, hv})
+		return s
+	}
 	return []*TxScript{
 		mk("q0", "/?abc=1"), mk("q1", "/?k=abc"), mk("q2", "/?k=zzz&a.c=5"), mk("q3", "/abc/77?k=qqq"),
 		mk("q4", "/?k=evil&evil=x1"), mk("q5", "/?x1=a1c&k=axc"), mk("q6", "/x1/9?axc=408"), mk("q7", "/?k=12345678-5"),
+		mkh("q8", "/?Xb1d=1&k=xb2d", "Xb3d", "v"), mkh("q9", "/Xb.d/4?xbzd=Xb.d", "xbyd", "Xb9d"), mkh("q10", "/?k=1", "abc", "evil"),
 	}
 }
 
@@ -321,7 +334,7 @@ func c13Run(w *verifrt.World, tier Tier) *RunResult {
 			case "build":
 				h, class, detail := c13Build(&c13Pool[o.Cfg])
 				g := c13Table[o.Cfg]
-				roles := strings.NewReplacer("(abc)", "", "(a.c)", "", "(evil)", "", "(x1)", "").Replace(c13Pool[o.Cfg].Name)
+				roles := strings.NewReplacer("(abc)", "", "(a.c)", "", "(evil)", "", "(x1)", "", "(Xb.d)", "").Replace(c13Pool[o.Cfg].Name)
 				switch {
 				case class == "PANIC":
 					add("build-panic", roles, "task %d op %d: building %s panicked: %s\nconfiguration:\n%s", ti, oi, c13Pool[o.Cfg].Name, detail, c13Pool[o.Cfg].Text)
@@ -358,7 +371,7 @@ func c13Run(w *verifrt.World, tier Tier) *RunResult {
 					continue
 				}
 				if clause, detail := c05Diff(want, got); clause != "" {
-					roles := strings.NewReplacer("(abc)", "", "(a.c)", "", "(evil)", "", "(x1)", "").Replace(c13Pool[ci].Name)
+					roles := strings.NewReplacer("(abc)", "", "(a.c)", "", "(evil)", "", "(x1)", "", "(Xb.d)", "").Replace(c13Pool[ci].Name)
 					add("probe-differs", roles+"/"+clause, "task %d op %d: probe %s on %s: %s\nwith the cache compiled out: %s\nhere:                        %s\nconfiguration:\n%s", ti, oi, reqs[o.Req].URI, c13Pool[ci].Name, detail, jsonOf(want), jsonOf(got), c13Pool[ci].Text)
 				}
 			}
